@@ -91,6 +91,35 @@ def check_characterize(ctx, case):
     ctx.op(("RAW", "\t".join(["CHAR", "|".join("^".join(impl.cls_fields(c)) for c in cands), wd])), case, reply=got)
 
 
+def check_characterize_concrete(ctx, case):
+    """characterize() asked of a concrete part type that has itself been subclassed (a laboratory's own variant
+    of a kit type): the type remains a candidate for its own records.  Runs in a forked child so that the new
+    subclass does not stay registered."""
+    from props.c06 import forked
+    cls = asm.cls_by_name(case["concrete"])
+    wd = case["word"]
+
+    def child():
+        V = type("Variant", (cls,), {"signature": tuple(case["childsig"])})
+        rec = impl.CircularRecord(impl.Seq(wd), id="c")
+        acc = [c.__name__ for c in (V, cls) if T.evaluate(c, wd)[0] == "valid"]
+        try:
+            ent = cls.characterize(rec)
+            return ["found", type(ent).__name__, acc]
+        except RuntimeError:
+            return ["none", None, acc]
+    got = forked(child)
+    if got[0] == "child-exception":
+        ctx.fail("characterize on a subclassed concrete type raised {}: {}".format(got[1], got[2]), case)
+    elif got[0] == "none" and got[2]:
+        ctx.fail("{}.characterize raises RuntimeError once the type has a subclass, although {} accept(s) {!r}".format(
+            cls.__name__, got[2], wd), case)
+    elif got[0] == "found" and got[1] not in got[2]:
+        ctx.fail("{}.characterize returns a {} which does not accept the record".format(cls.__name__, got[1]), case)
+    ctx.note("characterize-concrete:" + got[0])
+    ctx.case(case, nontrivial=bool(got[2]) if got[0] != "child-exception" else False, key=["cc", case["concrete"], wd])
+
+
 def overhang_for(rng, sig, mode, pool):
     inst = "".join(rng.choice(gen.IUPAC[ch]) for ch in sig)
     if mode == 0:
@@ -166,11 +195,26 @@ def run(ctx):
         ctx.guard(check_characterize, {"base": asm.cls_name(base), "word": gen.rot(wd, rng.randrange(len(wd)))})
 
 
+    # a concrete kit type asked directly, after a variant of it has been declared
+    for _ in range(ctx.budget(40, 800)):
+        cls = rng.choice(sorted(derived, key=lambda c: c.__name__))
+        up, down = cls.signature
+        wd = make_word(rng, cls, overhang_for(rng, up, 0, pool), overhang_for(rng, down, 0, pool))
+        if wd is None:
+            continue
+        k = len(up)
+        other = gen.rnd(rng, k)
+        ctx.guard(check_characterize_concrete, {"concrete": asm.cls_name(cls), "word": gen.rot(wd, rng.randrange(len(wd))),
+                                                "childsig": [other, down]})
+
+
 _check_case = check_case
 
 
 def check_case(ctx, case):  # noqa: F811
-    if "base" in case:
+    if "concrete" in case:
+        ctx.guard(check_characterize_concrete, case)
+    elif "base" in case:
         ctx.guard(check_characterize, case)
     else:
         _check_case(ctx, case)
